@@ -14,12 +14,18 @@ META = dict(
     not_covered=['the evaluation lambdas of gwb-grid main (writes data_set[..][i] only)', 'the query path below World::properties (models, distance functions) beyond their const-ness', 'vtu output'],
     enforced_elsewhere={},
 )
-# bounded frame units for Fault/SubductingPlate::properties (contracts/c14_frame.c) were tried with every loop cut after one
-# iteration: the DFCC query still does not finish in 900 s, so they are not part of the check (DESIGN 15)
+# frame-only units (contracts/c14_frame.c, pipeline key frame_only): Fault::properties / SubductingPlate::properties write their
+# answer vector and the exception flag only
 FSTUBS = ['Utilities_distance_point_from_curved_planes', 'Objects_NaturalCoordinate_get_surface_coordinates', 'Objects_NaturalCoordinate_get_depth_coordinate',
-          'grains_ctor', 'grains_unroll_into', 'BoundingBox2_point_inside']
-FREPL = ['Utilities_distance_point_from_curved_planes', 'Objects_NaturalCoordinate_get_surface_coordinates', 'Objects_NaturalCoordinate_get_depth_coordinate',
-         'BoundingBox2_point_inside', 'CoordinateSystems_Interface_natural_coordinate_system']
+          'BoundingBox2_point_inside']
+FRAME_UNITS = []
+for _nm, _fam, _tu in [('fault_frame', 'Fault', 'fault'), ('slab_frame', 'SubductingPlate', 'subducting_plate')]:
+    FRAME_UNITS.append(dict(
+        name=_nm, enforce='Features_%s_properties' % _fam, contracts='c14_frame.c', harness='h_frame', frame_only=True,
+        targets=[dict(tu='source/world_builder/features/%s.cc' % _tu, qual='WorldBuilder::Features::%s::properties' % _fam)],
+        aliases={'WorldBuilder::grains::grains|const std::vector<double> &': 'grains_ctor'},
+        stub=FSTUBS, nothrow=['Objects_NaturalCoordinate_get_surface_coordinates', 'Objects_NaturalCoordinate_get_depth_coordinate', 'BoundingBox2_point_inside'],
+        outline_fp='all', defines={'MAXP': 1, 'WB_VEC_CAP': 2}, expect_fail=['REACHABILITY-GUARD'], timeout=900))
 UNITS = [
     dict(name='parallel_for', enforce='parallel_for', contracts='c14_parallel_for.c', harness='h_parallel_for',
          targets=[dict(tu='source/gwb-grid/main.cc', qual='ThreadPool::parallel_for', sig='(lambda at /repo/source/gwb-grid/main.cc', first_of_many=True, filter='', cname='parallel_for')],
@@ -41,3 +47,6 @@ UNITS = [
                           '__CPROVER_decreases(wb_r2->n - wb_i2)'),
          }),
 ]
+# FRAME_UNITS are NOT part of the check: with callee bodies (no cut paths) the frame-only query of the 600-line functions
+# needs 18 min and still reports spurious failures (loop havoc forgets vector sizes) - see DESIGN 15
+EXPERIMENTAL_UNITS = FRAME_UNITS
